@@ -56,7 +56,7 @@ func c15GenType(tp *core.Tape, ti int) *c15type {
 	nf := 1 + tp.Choose("nfields", 6)
 	var sf []reflect.StructField
 	for i := 0; i < nf; i++ {
-		f := c15field{name: fmt.Sprintf("F%d", i), key: fmt.Sprintf("K%d", i), kind: tp.Choose("kind", 8)}
+		f := c15field{name: fmt.Sprintf("F%d", i), key: fmt.Sprintf("K%d", i), kind: tp.Choose("kind", 10)}
 		if tp.Chance("untagged", 1, 6) {
 			// no source tag at all: every source is tried under the field's own name
 			f.untagged = true
@@ -89,7 +89,7 @@ func c15GenType(tp *core.Tape, ti int) *c15type {
 			}
 		}
 		if tp.Chance("default", 1, 5) {
-			f.def = []string{"dflt", "7", "7", "7", "true", "1.5", "7", "['d1','d2']"}[f.kind]
+			f.def = []string{"dflt", "7", "7", "7", "true", "1.5", "7", "['d1','d2']", "7", "[7]"}[f.kind]
 		}
 		f.required = f.def == "" && tp.Chance("required", 1, 6)
 		var tag []string
@@ -123,6 +123,10 @@ func c15GenType(tp *core.Tape, ti int) *c15type {
 			ft = reflect.PtrTo(reflect.TypeOf(int(0)))
 		case 7:
 			ft = reflect.TypeOf([]string{})
+		case 8:
+			ft = reflect.PtrTo(reflect.TypeOf(int8(0)))
+		case 9:
+			ft = reflect.TypeOf([]uint16{})
 		}
 		// a per-type marker in the tag makes every generated type distinct
 		tag = append(tag, fmt.Sprintf(`sim:"t%d"`, ti))
@@ -141,6 +145,10 @@ func c15Text(kind int, tp *core.Tape, salt int) string {
 		return fmt.Sprint(salt*3 + 1)
 	case 3:
 		return fmt.Sprint(salt % 200)
+	case 8: // *int8: in and out of range
+		return []string{"5", "-7", "127", "128", "300", "-129", "-128"}[salt%7]
+	case 9: // []uint16
+		return []string{"1", "65535", "65536", "70000", "0"}[salt%5]
 	case 4:
 		return []string{"true", "false"}[salt%2]
 	default:
@@ -201,6 +209,8 @@ func (r *c15req) build(t *c15type) (*protocol.Request, param.Params) {
 					parts = append(parts, fmt.Sprintf("%q:%q", f.key, v))
 				case 7:
 					parts = append(parts, fmt.Sprintf("%q:[%q]", f.key, v))
+				case 9:
+					parts = append(parts, fmt.Sprintf("%q:[%s]", f.key, v))
 				default:
 					parts = append(parts, fmt.Sprintf("%q:%s", f.key, v))
 				}
@@ -278,12 +288,28 @@ func c15Model(t *c15type, r *c15req) string {
 		return "" // untagged fields follow the default-tag rules, outside the small model
 	}
 	for _, f := range t.fields {
-		if f.def != "" && (f.kind == 6 || f.kind == 7) {
+		if f.def != "" && (f.kind == 6 || f.kind == 7 || f.kind == 8 || f.kind == 9) {
 			return "" // defaults of pointer and slice fields: judged by the differential oracle only
 		}
 	}
 	jsonPresent := len(r.vals["json"]) > 0
 	formPresent := len(r.vals["form"]) > 0
+	// the JSON body is decoded into the struct as a whole first: a number that does not fit its field fails the bind,
+	// whichever source would win for that field
+	for _, f := range t.fields {
+		if v, ok := r.vals["json"][f.key]; ok {
+			if f.kind == 8 {
+				if _, err := strconv.ParseInt(v, 10, 8); err != nil {
+					return "ERR"
+				}
+			}
+			if f.kind == 9 {
+				if _, err := strconv.ParseUint(v, 10, 16); err != nil {
+					return "ERR"
+				}
+			}
+		}
+	}
 	var sb strings.Builder
 	for _, f := range t.fields {
 		text, found := "", false
@@ -321,9 +347,9 @@ func c15Model(t *c15type, r *c15req) string {
 					sb.WriteString(";")
 				case 4:
 					sb.WriteString("false;")
-				case 6:
+				case 6, 8:
 					sb.WriteString("nil;")
-				case 7:
+				case 7, 9:
 					sb.WriteString("[];")
 				default:
 					sb.WriteString("0;")
@@ -331,10 +357,21 @@ func c15Model(t *c15type, r *c15req) string {
 				continue
 			}
 		}
+		// the usual Go text rules: a number that does not fit the field's type is an error, never a wrapped value
+		if f.kind == 8 {
+			if _, err := strconv.ParseInt(text, 10, 8); err != nil {
+				return "ERR"
+			}
+		}
+		if f.kind == 9 {
+			if _, err := strconv.ParseUint(text, 10, 16); err != nil {
+				return "ERR"
+			}
+		}
 		switch f.kind {
-		case 6:
+		case 6, 8:
 			sb.WriteString("&" + text + ";")
-		case 7:
+		case 7, 9:
 			sb.WriteString("[" + text + "];")
 		default:
 			sb.WriteString(text + ";")
